@@ -46,8 +46,8 @@ def dispatch (line : String) : String :=
     else if stream ∈ ["strdecode", "strser"] then cStr stream fs
     else if stream ∈ ["linecol", "c11.ranges"] then cLc stream fs
     else if stream ∈ ["scalars"] then cScalars stream fs
-    else if stream ∈ ["guard", "sort", "fragcycle"] then c21 stream fs
-    else if stream ∈ ["unusedvars"] then c22 stream fs
+    else if stream ∈ ["guard", "sort", "fragcycle", "inputguard", "dirguard"] then c21 stream fs
+    else if stream ∈ ["unusedvars", "restore"] then c22 stream fs
     else if stream.startsWith "c08." then c08 stream fs
     else if stream.startsWith "c12." then c12 stream fs
     else if stream.startsWith "c13." then c13 stream fs
